@@ -16,13 +16,21 @@ R03.5 "in place and out of place": with the input and output pointers equated, n
       reads bytes that a store through the output argument has already written on some path to it (lib/inplace.py:
       symbolic linear address forms, pointers advanced in lockstep stay related across loop heads); pairs whose
       symbolic parts differ are not judged.
+R03.6 AES round typestate in the 12 expanded-key bodies (lib/aesrounds.py, on the path each length 16..299 selects;
+      thorough ..699): the tweak goes through the whitening and rounds 1..Nr of the k2 schedule, every data block
+      through those of the k1 schedule, round keys in order, the last round in its *last form, and only finished
+      blocks (or bytes assembled from finished blocks: ciphertext stealing) are stored through out.  The 12 raw-key
+      bodies expand their keys inline into registers and their frame; their rounds are not judged.
 R03.3 every XTS body is reached: each of the 8 dispatchers offers an sse, an avx and a vaes candidate and every
       candidate has the 6-argument signature taken from aes/aes_xts.c (anchor / instance floor).
 Positive control: under len in [16,31] the same analysis does reach accesses through both buffers in every body.
 """
 import collections
 
+import re
+
 import absint
+import aesrounds
 import align
 import build
 import c19
@@ -72,6 +80,33 @@ def worker(lib, objname, extra):
         for b in p1.broken:
             out["broken"].append("%s::%s %s" % (objname, name, b))
         out["bodies"] += 1
+        if "expanded_key" in name:
+            nr_ = {128: 10, 256: 14}[int(re.search(r"_(128|256)_", name).group(1))]
+            hi_ = 700 if extra.get("tier") == "thorough" else 300
+            bad6 = None
+            jr = jl = ul = 0
+            for L in range(16, hi_):
+                mch = aesrounds.run_body(lib, f, sig, nr_, L)
+                rr = mch.result
+                if rr.stopped or not rr.returned:
+                    out["broken"].append("%s: length skeleton not followed for len = %d (%s)" % (name, L, rr.stopped))
+                    break
+                jr += 1
+                v, a_, b_ = aesrounds.judge(mch)
+                jl += a_
+                ul += b_
+                out["rt_rounds"] = out.get("rt_rounds", 0) + mch.rounds_ok
+                out["rt_unk"] = out.get("rt_unk", 0) + mch.rounds_unk
+                if v and not bad6:
+                    bad6 = (L, v)
+            out["rt_bodies"] = out.get("rt_bodies", 0) + 1
+            out["rt_lanes"] = out.get("rt_lanes", 0) + jl
+            out["rt_unl"] = out.get("rt_unl", 0) + ul
+            out["rt_runs"] = out.get("rt_runs", 0) + jr
+            if bad6:
+                out["findings"].append({"rule": "R03.6", "obj": objname, "function": name, "construct": "aes-rounds:len=%d" % bad6[0], "message": "with len = %d: %s" % (bad6[0], bad6[1][1]), "loc": o.line_of(key[1], bad6[1][0].addr) or objname})
+            else:
+                out["rt_ok"] = out.get("rt_ok", 0) + 1
 
         def through(i, regs):
             m = p1.maddr.get(i.addr)
@@ -202,11 +237,11 @@ def run(chk):
     nbind = cands.binding_rule(chk, "R03.4", lib, ['_XTS_AES_'])
     chk.floor("implementations checked for binding ownership", nbind, 1)
     objs = sorted({lib._by_name[c][0] for c in cand if c in lib._by_name})
-    res = par.map_objects(lib, worker, objs, extra={"cand": cand})
+    res = par.map_objects(lib, worker, objs, extra={"cand": cand, "tier": chk.tier})
     tot = collections.Counter()
     for objname in sorted(res):
         r = res[objname]
-        for k in ("bodies", "ins_reachable", "mem_reachable", "aligned_sinks", "ptr_accesses", "r031_ok", "r031_bad", "r032_ok", "r032_bad", "ip_bodies", "ip_ok", "ip_pairs", "ip_match"):
+        for k in ("bodies", "ins_reachable", "mem_reachable", "aligned_sinks", "ptr_accesses", "r031_ok", "r031_bad", "r032_ok", "r032_bad", "ip_bodies", "ip_ok", "ip_pairs", "ip_match", "rt_bodies", "rt_ok", "rt_lanes", "rt_unl", "rt_runs", "rt_rounds", "rt_unk"):
             tot[k] += r.get(k, 0)
         for b in r["broken"]:
             chk.broke(b)
@@ -220,6 +255,10 @@ def run(chk):
     chk.obligations["R03.1"] = [tot["bodies"], tot["r031_ok"]]
     chk.obligations["R03.2"] = [tot["bodies"], tot["r032_ok"]]
     chk.obligations["R03.5"] = [tot["ip_bodies"], tot["ip_ok"]]
+    chk.obligations["R03.6"] = [tot["rt_bodies"], tot["rt_ok"]]
+    chk.floor("expanded-key bodies judged for the AES round typestate", tot["rt_bodies"], 12)
+    chk.floor("XTS output blocks judged for the round typestate", tot["rt_lanes"], 30000)
+    chk.extra["round_typestate"] = {"runs": tot["rt_runs"], "output_blocks_judged": tot["rt_lanes"], "output_blocks_not_judged": tot["rt_unl"], "round_steps_in_order": tot["rt_rounds"], "round_steps_not_judged": tot["rt_unk"]}
     chk.floor("bodies analysed for in-place hazards", tot["ip_bodies"], 24)
     chk.extra["in_place_pairs_compared"] = tot["ip_pairs"]
     chk.extra["in_place_address_shapes_shared_by_loads_and_stores"] = tot["ip_match"]
